@@ -578,11 +578,14 @@ var bufferPool = sync.Pool{
 }
 
 func GetBuffer() *bytes.Buffer {
-	return bufferPool.Get().(*bytes.Buffer)
+	b := bufferPool.Get().(*bytes.Buffer)
+	verifBytesPool("get", b)
+	return b
 }
 
 func ReleaseBuffer(b *bytes.Buffer) {
 	b.Reset()
+	verifBytesPool("put", b)
 	bufferPool.Put(b)
 }
 
